@@ -1,0 +1,30 @@
+// Copyright 2019 Samaritan Authors
+//
+// Licensed under the Apache License, Version 2.0 (the "License");
+// you may not use this file except in compliance with the License.
+// You may obtain a copy of the License at
+//
+//      http://www.apache.org/licenses/LICENSE-2.0
+//
+// Unless required by applicable law or agreed to in writing, software
+// distributed under the License is distributed on an "AS IS" BASIS,
+// WITHOUT WARRANTIES OR CONDITIONS OF ANY KIND, either express or implied.
+// See the License for the specific language governing permissions and
+// limitations under the License.
+
+//go:build verif
+// +build verif
+
+package proc
+
+import "net"
+
+// VerifSetListenFunc replaces the function every listener binds its address
+// with and returns the previous one. It is meant to be called once, before any
+// listener is started; the verification harness uses it to serve selected
+// addresses from in-memory listeners.
+func VerifSetListenFunc(f func(network, address string) (net.Listener, error)) func(network, address string) (net.Listener, error) {
+	old := defaultListenFunc
+	defaultListenFunc = f
+	return old
+}
